@@ -13,7 +13,7 @@ From Anthem Require Import Base.ISet Syntax.Fol Syntax.Asp Sem.Domain Sem.Sat Se
   Model.Completion Model.ExternalFull
   Proofs.ExtendAll Proofs.SemBase Proofs.DecomposeOk Proofs.StrongOk Proofs.ExternalOk Proofs.AssemblyOk Proofs.RenameOk
   Proofs.TightnessOk Proofs.TauStarClassical Proofs.CompletionOk Proofs.FagesBridge Proofs.PlaceholderOk
-  Proofs.PrivateUnique Proofs.C02Ok Proofs.C02Full Proofs.HeadPred Proofs.HeadPredPipeline Proofs.C02Priv.
+  Proofs.PrivateUnique Proofs.C19Ext Proofs.C02Ok Proofs.C02Full Proofs.HeadPred Proofs.HeadPredPipeline Proofs.C02Priv.
 Import ListNotations.
 Open Scope string_scope.
 Open Scope list_scope.
@@ -120,7 +120,7 @@ Theorem C02_behaviour_proof t L w pbs lft rgt :
   external_decompose_full fuel t = XOk w pbs ->
   is_tight L = true -> is_tight (et_program t) = true ->
   tl t L = Some lft -> tr t = Some rgt ->
-  (forall uga, validated_no_clash (mkvalidated lft rgt uga empty_outline (et_decomposition t) (et_direction t) (et_break t))) ->
+  (forall vt, task_validated tau_star_total completion (simp_classic_total fuel) t = Some vt -> validated_no_clash vt) ->
   forall FI M,
     tvalid FI M (map (fun a => rp_formula (task_placeholders t) (an_formula a)) (filter is_assumption (ug_formulas (et_user_guide t)))) ->
     tvalid FI M (assumptions_of lft) -> tvalid FI M (assumptions_of rgt) ->
@@ -185,7 +185,7 @@ Theorem C02_countermodel_proof t L w pbs lft rgt :
   external_decompose_full fuel t = XOk w pbs ->
   is_tight L = true -> is_tight (et_program t) = true ->
   tl t L = Some lft -> tr t = Some rgt ->
-  (forall uga, validated_no_clash (mkvalidated lft rgt uga empty_outline (et_decomposition t) (et_direction t) (et_break t))) ->
+  (forall vt, task_validated tau_star_total completion (simp_classic_total fuel) t = Some vt -> validated_no_clash vt) ->
   forall FI M,
     refutes_some FI M pbs ->
     (dir_forward (et_direction t) = true /\
@@ -198,7 +198,7 @@ Proof.
   intros Hs Ho Hfull HtL HtR El Er Hn FI M Href.
   destruct (full_ok_inv fuel t w pbs Hfull) as [_ [Hd _]].
   destruct (external_validated is_tight has_private_recursion tau_star_total completion (simp_classic_total fuel)
-              t L w pbs Hs Ho Hd) as [lft' [rgt' [uga [w' [El' [Er' [Eu Hv]]]]]]].
+              t L w pbs Hs Ho Hd) as [lft' [rgt' [uga [w' [El' [Er' [Eu [Hv Htv]]]]]]]].
   rewrite El in El'. injection El' as <-. rewrite Er in Er'. injection Er' as <-.
   assert (Tl : translated lft).
   { unfold task_left in El. destruct (translate t (task_placeholders t) L); [|discriminate]. injection El as <-.
@@ -206,7 +206,7 @@ Proof.
   assert (Tr : translated rgt).
   { unfold task_right in Er. destruct (translate t (task_placeholders t) (et_program t)); [|discriminate]. injection Er as <-.
     apply rename_translated, control_translate_translated. }
-  destruct (refuted_stable_premises _ w' pbs Hv eq_refl (Hn uga) Tl Tr FI M Href) as [Hug [Hal Har]].
+  destruct (refuted_stable_premises _ w' pbs Hv eq_refl (Hn _ Htv) Tl Tr FI M Href) as [Hug [Hal Har]].
   cbn in Hug, Hal, Har. rewrite Eu in Hug.
   exact (proj1 (C02_behaviour_proof t L w pbs lft rgt Hs Ho Hfull HtL HtR El Er Hn FI M Hug Hal Har) Href).
 Qed.
